@@ -4,7 +4,7 @@
 use crate::util::*;
 use aws_smt_strings::loop_ranges::LoopRange;
 
-const LIM: u64 = 128;
+const LIM: u64 = 320;
 
 #[derive(Clone, Copy, Debug, PartialEq)]
 struct Rg(u32, Option<u32>);
@@ -291,10 +291,12 @@ fn exact_by_definition(r: Rg, s: Rg) -> Option<bool> {
     }
 }
 
-fn all_ranges() -> Vec<Rg> {
+fn all_ranges(thorough: bool) -> Vec<Rg> {
+    // quick: start <= 8, end <= 10; thorough: start <= 12, end <= 16 (products stay below LIM, first gaps below 200)
+    let (ms, me) = if thorough { (12u32, 16u32) } else { (8u32, 10u32) };
     let mut v = Vec::new();
-    for i in 0..=8u32 {
-        for j in i..=10u32 {
+    for i in 0..=ms {
+        for j in i..=me {
             v.push(Rg(i, Some(j)));
         }
         v.push(Rg(i, None));
@@ -304,7 +306,7 @@ fn all_ranges() -> Vec<Rg> {
 
 pub fn run(p: &Params, rep: &mut Report) {
     let seed = p.seed;
-    let rs = all_ranges();
+    let rs = all_ranges(p.thorough);
     let mut idx = 0u64;
     for &r in &rs {
         for &s in &rs {
